@@ -669,6 +669,10 @@ def c07(run):
     run.assumptions = ["identities are addresses of the returned &'static RE, renumbered 1,2,3,... by the harness",
                        "language independence of history: nullable flag, membership of 17 words, exact emptiness, and (fresh-"
                        "manager histories) the exact product of the target's derivative graph with the residual automaton"]
+    run.model("MC_HashCons", "MC_HashCons.cfg", workers=4, timeout=600,
+              note="the id scheme of hash-consing (six predefined terms, x / complement(x) on adjacent even/odd ids): table "
+                   "injective, complement an involution without fixed point, the complement-pair test of "
+                   "simplify_set_operation exact (and unsound without its parity condition)")
     scen = os.path.join(run.workdir, "manager_scen.ndjson")
     full = run.tier == "thorough"
     run.generate("MC_Manager", "MC_Manager.cfg", scen, timeout=1200,
@@ -721,7 +725,7 @@ def all_u1(ids):
     models = [("MC_Chars", "MC_Chars.cfg"), ("MC_Regex", "MC_Regex.cfg"), ("MC_Literals", "MC_Literals.cfg"),
               ("MC_Strings", "MC_Strings.cfg"), ("MC_LoopRanges", "MC_LoopRanges.cfg"), ("MC_Dfa", "MC_Dfa.cfg"),
               ("MC_PartGen", "MC_PartGen.cfg"), ("MC_Builder", "MC_Builder.cfg"), ("MC_Manager", "MC_Manager.cfg"),
-              ("MC_Hopcroft", "MC_Hopcroft.cfg"), ("MC_Components", "MC_Components.cfg"), ("MC_Terms", "MC_Terms.cfg"), ("MC_Rules", "MC_Rules.cfg"), ("MC_CoverSearch", "MC_CoverSearch.cfg"), ("MC_MergeSweep", "MC_MergeSweep.cfg")]
+              ("MC_Hopcroft", "MC_Hopcroft.cfg"), ("MC_Components", "MC_Components.cfg"), ("MC_Terms", "MC_Terms.cfg"), ("MC_Rules", "MC_Rules.cfg"), ("MC_HashCons", "MC_HashCons.cfg"), ("MC_CoverSearch", "MC_CoverSearch.cfg"), ("MC_MergeSweep", "MC_MergeSweep.cfg")]
     bad = 0
     for m, c in models:
         if ids and m not in ids:
